@@ -444,7 +444,8 @@ for these seven formats only by the generator/oracle stream. What IS proved is t
 or invented" that the extractor's own loop is responsible for: de-duplication keys, last/first-write-wins, flattening,
 alias / file: / git handling, replace directives. What an entry denotes (`depEntry`, `pkgEntry`, `GoMod.step`) is taken from
 the model — i.e. these are refinement statements "loop = fold of per-entry function", not an independent grammar of aliases
-or of go.mod replace semantics (observed deviations from Go's own semantics — chained replaces — are listed in the check's notes);
+or of go.mod replace semantics (the go command's rule is stated separately, `GoMod.goFinal` / `expectedGo`, and is what the oracle uses;
+since fix 22707b48 the extractor's loop — wildcard directives matched against the module as required, then the version-specific ones — follows it);
 the theorems that rest on such a per-entry function carry `_model_semantics` in their names (`C03_packagelock*`, `C03_gomod*`).
 `C03_pipfile` (`Pipfile.pinned`) and `C03_pkgslock` (`PackagesLock.listed`: distinct (id, resolved version) PAIRS over all target
 frameworks) have spec-side definitions of their own.
